@@ -27,16 +27,32 @@ import (
 	"github.com/mdlayher/ndp"
 )
 
+// faultVariant selects among errors of one class (set per run from the flood size): the reaction depends on
+// the class only -- a full device queue (ENOBUFS) or a write that timed out is as fatal to the connection as
+// any other transmit error.
+var faultVariant int
+
 func faultErr(kind string) error {
 	if strings.HasSuffix(kind, "Syscall") {
 		kind = "Syscall"
 	}
 	switch kind {
 	case "Syscall":
-		return fmt.Errorf("wrapped: %w", &os.SyscallError{Syscall: "recvmsg", Err: syscall.ENETDOWN})
+		errno := []syscall.Errno{syscall.ENETDOWN, syscall.ENOBUFS, syscall.EINVAL, syscall.EHOSTUNREACH}[faultVariant%4]
+		if faultVariant%2 == 0 {
+			return fmt.Errorf("wrapped: %w", &os.SyscallError{Syscall: "sendmsg", Err: errno})
+		}
+		return &net.OpError{Op: "write", Net: "ip6:ipv6-icmp", Err: &os.SyscallError{Syscall: "sendmsg", Err: errno}}
 	case "Perm":
 		return &os.SyscallError{Syscall: "sendmsg", Err: syscall.EPERM}
 	default:
+		switch faultVariant % 3 {
+		case 1:
+			// a timeout that is not a system call error
+			return &net.OpError{Op: "write", Net: "ip6:ipv6-icmp", Err: vTimeout{}}
+		case 2:
+			return context.DeadlineExceeded
+		}
 		return errors.New("verif: plain failure")
 	}
 }
@@ -72,6 +88,7 @@ type tdResult struct {
 
 // runTeardown injects one fault into a running advertiser / monitor at virtual instant T.
 func runTeardown(t *testing.T, monitor bool, fault string, flood int, busy time.Duration) (res tdResult) {
+	faultVariant = flood
 	defer func() {
 		if p := recover(); p != nil {
 			// synctest panics when goroutines of the bubble are left blocked forever
@@ -178,7 +195,11 @@ func runTeardown(t *testing.T, monitor bool, fault string, flood int, busy time.
 		var faultAt int64
 		switch fault {
 		case "FReadSyscall", "FReadPerm", "FReadOther":
+			// (a read that times out is not an error but the retry path of C10's clause (b): plain error values only)
+			v := faultVariant
+			faultVariant -= faultVariant % 3
 			old.readC <- vRead{err: faultErr(fault[len("FRead"):])}
+			faultVariant = v
 			faultAt = vNow()
 		case "FTimeouts5":
 			for j := 0; j < 5; j++ {
